@@ -111,6 +111,14 @@ KERNELS += [
       loops=3, cxx="Array<1,elemT>::resize(int,int)"),
 ]
 
+KERNELS.append(dict(name="K_arr_is_contiguous", file="src/include/stir/Array.inl", cxx_name="Array<num_dimensions,elemT>::is_contiguous (num_dimensions >= 2)",
+                    func=r"Array<num_dimensions, elemT>::is_contiguous\(\) const", c_header="_Bool K_arr_is_contiguous(const struct ARRN* self)", loops=1,
+                    rules=[(r"auto mem = &\(\*this->begin_all\(\)\);", "long mem = ARR_BEGIN_ALL_ADDR(self);", 1),
+                           (r"auto i = this->get_min_index\(\)", "int i = self->min_index", 1), (r"this->get_max_index\(\)", "self->max_index", (1, 3)),
+                           (r"\(\*this\)\[([^\]]+)\]\.is_contiguous\(\)", r"SUBARR_CONTIG(self, \1)", 1),
+                           (r"\(\*this\)\[([^\]]+)\]\.size_all\(\)", r"SUBARR_SIZE(self, \1)", 1),
+                           (r"&\(\*\(\*this\)\[([^\]]+)\]\.begin_all\(\)\)", r"SUBARR_ADDR(self, \1)", 1)]))
+
 ERR = (r'\berror\("[^"]*"\);', "K_THROW(self);", 1)
 for nm, op in (("plus", r"\+="), ("minus", "-="), ("mult", r"\*="), ("div", "/=")):
     KERNELS.append(K("K_vwo_%s_assign" % nm, CLS + r"operator%s\(const VectorWithOffset& v\)" % op,
@@ -202,6 +210,13 @@ def jobs(tier, gen_dir):
                 out.append(Job("c11/%s/%s/self_empty" % (tt.replace(" ", "_"), kern), HARNESS, "h_" + kern, enforce=kern,
                                loop_contracts=lc, defines=d2, flags=checks, timeout=300, params={"T": tt, "self": "empty"},
                                kernels=[kern], min_obligations=3, no_base_flags=True, replay="vwo"))
+        if t == types[0]:
+            out.append(Job("c11/K_arr_is_contiguous", os.path.join(VERIF, "harness", "c11b.c"), "h_K_arr_is_contiguous", enforce="K_arr_is_contiguous",
+                           loop_contracts=True, flags=CHECKS, timeout=300, kernels=["K_arr_is_contiguous"], min_obligations=3, no_base_flags=True,
+                           backend="kissat", params={"sub-arrays": "symbolic number <= 8"}))
+            out.append(Job("c11/canary/K_arr_is_contiguous", os.path.join(VERIF, "harness", "c11b.c"), "h_K_arr_is_contiguous", enforce="K_arr_is_contiguous",
+                           loop_contracts=True, defines={"CANARY_K_arr_is_contiguous": None}, flags=[], timeout=300, kind="canary",
+                           expect_fail=r"K_arr_is_contiguous\.postcondition", kernels=["K_arr_is_contiguous"], no_base_flags=True))
         # vacuity canaries: contract + `ensures(false)` must fail
         for kern in ("K_vwo_plus_assign", "K_vwo_at", "K_vwo_set_offset"):
             if t != types[0]:
@@ -235,7 +250,7 @@ import subprocess
 
 REPLAY_OPS = {"K_vwo_plus_assign": "plus", "K_vwo_minus_assign": "minus", "K_vwo_mult_assign": "mult", "K_vwo_div_assign": "div",
               "K_vwo_at": "at", "K_vwo_set_offset": "set_offset", "K_vwo_fill": "fill", "K_vwo_equals": "equals",
-              "K_vwo_assign": "assign", "K_vwo_resize": "resize", "K_vwo_grow": "grow", "K_arr1_resize": "array_resize"}
+              "K_vwo_assign": "assign", "K_vwo_resize": "resize", "K_vwo_grow": "grow", "K_arr1_resize": "array_resize", "K_arr_is_contiguous": "contig"}
 
 
 def _num(v, default=0):
